@@ -89,6 +89,7 @@ func harnessC09a() {
 	a, tA := vNondetU32("a"), vNondetTime("tA")
 	last := t2
 	var accepted net.Conn
+	timedOut := false
 	if vNondetBool("withAccept") {
 		vCover("with-accept")
 		if tA > last {
@@ -100,6 +101,7 @@ func harnessC09a() {
 			c, err := m.Accept(a)
 			if err != nil {
 				vCover("accept-timed-out")
+				timedOut = true
 				vAssert(vNow()-t0 <= 5*sec, "unmatched Accept returns an error within 5 s")
 			} else {
 				vCover("accept-matched")
@@ -112,6 +114,11 @@ func harnessC09a() {
 	f := vNondetU32("f")
 	vAssume(f != x1 && f != x2 && f != a)
 	vSleepUntil(last + 11*sec)
+	if timedOut && vChoice(2) == 1 {
+		// not a fresh ID: the one whose Accept timed out is tried again, now with a dial
+		vCover("retry-of-timed-out-accept")
+		f = a
+	}
 	// a dial nobody accepts ends: its stream is closed by the broker, so the remote Dial's wait for the ack returns
 	for _, in := range []*yamux.Stream{in1, in2} {
 		if accepted != net.Conn(in) {
